@@ -15,6 +15,8 @@
 //!
 //! Op lines:
 //!   env <cfg> <ct s|z|a>                                  (not fed to the model)
+//!   allow add|remove|set <items>   restart                (not fed to the model; items = descriptors and x<j> xpub entries;
+//!                                                          `set` replaces everything, xpub entries included)
 //!   delayed <cfg> <ct> <height> <ver> <locktime> <seqs a,b,..|-> <input> <commit_num> <nhc> <wpath> <outs d,d|->
 //!   cphtlc  <cfg> <ct> <height> <ver> <locktime> <seqs> <input> <script r<cltv>|o|x> <form 0|1> <wpath> <outs>
 //!   justice <cfg> <ct> <height> <ver> <locktime> <seqs> <input> <wpath> <outs>
@@ -591,7 +593,7 @@ fn gen_cfg(rng: &mut Rng) -> Cfg {
     Cfg { minf, maxf, filter, style, onchain: rng.chance(1, 3), allow, xpubs }
 }
 
-fn gen_dests(rng: &mut Rng, cfg: &Cfg, removed: &[String]) -> (Vec<u32>, Vec<Desc>) {
+fn gen_dests(rng: &mut Rng, cfg: &Cfg, removed: &[String], removed_x: &[u32]) -> (Vec<u32>, Vec<Desc>) {
     let p: Vec<u32> = if cfg.style == 'l' && rng.chance(1, 3) { vec![rng.below(3) as u32, rng.below(3) as u32] } else { vec![rng.below(5) as u32] };
     let wpath = match rng.below(14) { 0 => vec![], 1 => vec![p[0] | HARD], 2 => { let mut q = p.clone(); q.push(1); q } _ => p.clone() };
     let n = match rng.below(10) { 0 => 0, 1..=5 => 1, 6 | 7 => 2, 8 => 3, _ => 4 };
@@ -599,7 +601,10 @@ fn gen_dests(rng: &mut Rng, cfg: &Cfg, removed: &[String]) -> (Vec<u32>, Vec<Des
     for i in 0..n {
         // mostly good destinations; the bad one (if any) is more often NOT the first output
         let bad = rng.chance(1, if i == 0 { 12 } else { 5 });
-        let d = if !removed.is_empty() && rng.chance(1, 4) {
+        let d = if !removed_x.is_empty() && rng.chance(1, 3) {
+            // a child (at the request's path) of an xpub that WAS allowlisted and has been dropped since
+            Desc::X(*rng.pick(removed_x), p.clone(), *rng.pick(&['w', 'k', 't']))
+        } else if !removed.is_empty() && rng.chance(1, 4) {
             // a destination that WAS allowlisted and has been removed since
             Desc::parse(rng.pick(removed).as_str()).unwrap()
         } else if bad {
@@ -690,6 +695,8 @@ impl Group for C09Sweep {
             // vlsd's default OnchainValidatorFactory (upper-case style letter): justice sweep sequences 0 / 0xfffffffd / 0xffffffff signed,
             // the contest delay refused; delayed sweep the other way round
             c("env 253;333333;d;N;-;- s|justice 253;333333;d;N;-;- s 100 2 0 0 0 1 W/1/w|justice 253;333333;d;N;-;- s 100 2 0 4294967293 0 1 W/1/w|justice 253;333333;d;N;-;- s 100 2 0 7 0 1 W/1/w|delayed 253;333333;d;N;-;- s 100 2 0 7 0 0 1 1 W/1/w|delayed 253;333333;d;N;-;- s 100 2 0 0 0 0 1 1 W/1/w"),
+            // an xpub entry: its child at the request's path is a destination; the list is replaced without it: refused, also after a restart
+            c("env 253;333333;d;n;-;1 s|justice 253;333333;d;n;-;1 s 100 2 0 0 0 2 X1/2/w|allow set F/3/w|justice 253;333333;d;n;F/3/w;- s 100 2 0 0 0 2 X1/2/w|restart|justice 253;333333;d;n;F/3/w;- s 100 2 0 0 0 2 X1/2/w|allow set F/3/w,x1|justice 253;333333;d;n;F/3/w;1 s 100 2 0 0 0 2 X1/2/w"),
             // canonical HTLC-timeout (non-anchors, feerate 1000 → fee 663) and a wrong delay
             c("env 253;333333;d;n;-;- s|htlc 253;333333;d;n;-;- s h 2 131072 5:0:0 9337:r0/7/0 o 0 10000|htlc 253;333333;d;n;-;- s h 2 131072 5:0:0 9337:r0/6/0 o 0 10000"),
         ]
@@ -734,6 +741,7 @@ impl Group for C09Sweep {
         let n = rng.range(2, if tier == Tier::Quick { 6 } else { 12 });
         // destinations that were allowlisted earlier in this case and are not any more
         let mut removed: Vec<String> = vec![];
+        let mut removed_x: Vec<u32> = vec![];
         for _ in 0..n {
             // allowlist changes (the generator keeps the same book as the executor) and restarts from the store
             if rng.chance(1, 3) {
@@ -741,7 +749,21 @@ impl Group for C09Sweep {
                     0 => Desc::W(vec![rng.below(4) as u32], *rng.pick(&['w', 's', 't'])),
                     _ => Desc::F(rng.below(6) as u32, *rng.pick(&['w', 's', 't', 'k', 'h'])),
                 }.to_string();
-                match rng.below(6) {
+                match rng.below(8) {
+                    6 => {
+                        // an xpub entry comes ...
+                        let j = rng.below(3) as u32;
+                        removed_x.retain(|x| *x != j);
+                        cfg.xpubs.push(j);
+                        ops.push(format!("allow add x{}", j));
+                    }
+                    7 if !cfg.xpubs.is_empty() => {
+                        // ... and goes
+                        let j = *rng.pick(&cfg.xpubs[..]);
+                        cfg.xpubs.retain(|x| *x != j);
+                        removed_x.push(j);
+                        ops.push(format!("allow remove x{}", j));
+                    }
                     0 | 1 => {
                         let d = if !removed.is_empty() && rng.chance(1, 3) { rng.pick(&removed[..]).clone() } else { fresh(rng) };
                         removed.retain(|x| *x != d);
@@ -762,13 +784,22 @@ impl Group for C09Sweep {
                         for d in &cfg.allow { if !keep.contains(d) { removed.push(d.clone()); } }
                         removed.retain(|x| !keep.contains(x));
                         cfg.allow = keep;
-                        ops.push(format!("allow set {}", join(&cfg.allow)));
+                        // the replacement list names the xpub entries it keeps; the others are dropped with everything else
+                        let keep_x: Vec<u32> = cfg.xpubs.iter().filter(|_| rng.chance(1, 2)).cloned().collect();
+                        for j in &cfg.xpubs { if !keep_x.contains(j) { removed_x.push(*j); } }
+                        cfg.xpubs = keep_x;
+                        let mut items: Vec<String> = cfg.allow.clone();
+                        items.extend(cfg.xpubs.iter().map(|j| format!("x{}", j)));
+                        ops.push(format!("allow set {}", join(&items)));
                     }
                 }
                 cfg.allow.sort();
                 cfg.allow.dedup();
+                cfg.xpubs.sort();
+                cfg.xpubs.dedup();
+                removed_x.retain(|j| !cfg.xpubs.contains(j));
             }
-            if rng.chance(1, if removed.is_empty() { 8 } else { 2 }) {
+            if rng.chance(1, if removed.is_empty() && removed_x.is_empty() { 8 } else { 2 }) {
                 ops.push("restart".into());
             }
             let cs = cfg.to_string();
@@ -776,7 +807,7 @@ impl Group for C09Sweep {
             if kind < 6 {
                 let height = gen_height(rng);
                 let lt = gen_locktime(rng, height);
-                let (wpath, outs) = gen_dests(rng, &cfg, &removed);
+                let (wpath, outs) = gen_dests(rng, &cfg, &removed, &removed_x);
                 let n_in = match rng.below(10) { 0 => 0, 1 | 2 => 2, 3 => 3, _ => 1 };
                 let input = if rng.chance(1, 12) { n_in } else if n_in > 0 { rng.below(n_in as u64) as usize } else { 0 };
                 let ver = match rng.below(12) { 0 => 1, 1 => 3, _ => 2 };
@@ -876,28 +907,35 @@ impl Group for C09Sweep {
                 },
                 ["allow", what, descs] => {
                     let e = env.as_mut().expect("allow before env (malformed shrunk case)");
-                    let ds: Vec<String> = list(descs).iter().map(|s| s.to_string()).collect();
+                    // items: script descriptors, or `x<j>` for the xpub entry j
+                    let is_x = |s: &&str| s.starts_with('x') && s[1..].parse::<u32>().is_ok();
+                    let ds: Vec<String> = list(descs).iter().filter(|s| !is_x(s)).map(|s| s.to_string()).collect();
+                    let xs: Vec<u32> = list(descs).iter().filter(|s| is_x(s)).map(|s| s[1..].parse().unwrap()).collect();
                     let node = e.node_ctx.node.clone();
-                    let strs = allow_strings(&node, &ds);
+                    let mut strs = allow_strings(&node, &ds);
+                    for j in &xs { strs.push(format!("xpub:{}", ext_xpub(*j))); }
                     let r = match *what {
                         "add" => {
                             for d in &ds { if !e.cfg.allow.contains(d) { e.cfg.allow.push(d.clone()); } }
+                            for j in &xs { if !e.cfg.xpubs.contains(j) { e.cfg.xpubs.push(*j); } }
                             node.add_allowlist(&strs)
                         }
                         "remove" => {
                             e.cfg.allow.retain(|d| !ds.contains(d));
+                            e.cfg.xpubs.retain(|j| !xs.contains(j));
                             node.remove_allowlist(&strs)
                         }
                         _ => {
+                            // set_allowlist replaces EVERYTHING, xpub entries included: the book is exactly the new list
                             e.cfg.allow = ds.clone();
-                            // set_allowlist replaces everything: keep the (static) xpubs
-                            let mut all = strs.clone();
-                            for j in &e.cfg.xpubs { all.push(format!("xpub:{}", ext_xpub(*j))); }
-                            node.set_allowlist(&all)
+                            e.cfg.xpubs = xs.clone();
+                            node.set_allowlist(&strs)
                         }
                     };
                     e.cfg.allow.sort();
                     e.cfg.allow.dedup();
+                    e.cfg.xpubs.sort();
+                    e.cfg.xpubs.dedup();
                     co.tags.insert(format!("allow:{}", what));
                     match r { Ok(()) => "ok".to_string(), Err(st) => format!("allow-failed {}", st.message()) }
                 }
